@@ -17,12 +17,13 @@ import pylatexenc.latexwalker, pylatexenc.macrospec, pylatexenc.latexnodes.parse
 import pylatexenc.latexwalker._defaultspecs                                           # noqa  (spec objects exist, unused)
 import parseharness
 import props.c09 as C
+C.PRISTINE = True
 
 
 def run_one(job):
     if job['ctx'] == 'default':
         db = None
-    elif job['ctx'] in ('custom', 'custom-nofallback', 'bare'):
+    elif job['ctx'] in ('custom', 'custom-nofallback', 'bare', 'chained'):
         import docgen
         db = docgen.make_db(job['ctx'])
     else:
